@@ -1,6 +1,7 @@
 """C20 configuration for bin/check and bin/mkmanifest.py."""
 CFG = {
    "ready": True,
+   "env": {"GOMAXPROCS": "4"},   # cheaper runtime.GC() between encodes; parallel code paths stay enabled (>1)
    "level_text": "Proof: over the full EncoderOptions value space (every int field ranging over Z, both float32 fields over NaN / +-Inf / every finite value incl. -0 and subnormals, nil options, nil writer/image, any dimensions) the model of Encode's option handling never panics, fails exactly on the documented cases, hands the codecs only configurations inside their documented ranges, treats nil as DefaultOptions(), and resolves each documented sentinel (SNSStrength/FilterStrength/FilterType/QMax/Alpha* < 0, Segments/Pass <= 0) exactly like the documented default; lossy-only options never reach the lossless configuration; EmulateJpegSize and the Preset field change nothing; OptionsForPreset equals the documented table. The model interprets tables that the translator re-extracts from validateConfig, DefaultOptions, OptionsForPreset, resolve*, lossy.DefaultConfig and the propagation block of encodeLossyWithAlpha on every run, and a proof obligation equates them with the documented values. Model and code are compared on a complete pairwise covering of boundary / sentinel / extreme values, and every equivalence is also evaluated byte-for-byte on webp.Encode.",
    "level_note": "Trusted: Coq kernel, translator (AST walkers of tools/gosrc2v/funcs.go), extraction, OCaml glue, Go harness. The float32 dithering formula is not modelled (the amplitude is represented by the Quality it is computed from; the harness checks the float32 formula and its [0.5,1] range on every generated value). The hook replicates the inline propagation statements; the translator checks on every run that the replicas are verbatim copies. What the codecs do with a configuration is outside this property.",
    "technique": "Rocq proofs over an interpreter of source-extracted option tables (validation atoms, defaults, presets, propagation conditions), proof obligations against the frozen documented values; extraction-based correspondence with the effective configuration of the Go code; byte-level evaluation of every documented equivalence on webp.Encode",
